@@ -4,8 +4,12 @@ quantifier's weights: grammatical qvalues map to 1000*q exactly, and every
 non-grammatical one is rejected or (for the one known laxity, digits preceded by
 '+') is flagged; (R2) per list element: no `;` -> weight 1000, unparseable weight
 -> false, the coding literal `gzip` / `identity` / `*` selects the slot that
-receives Some(weight), other codings touch no slot; header absent or not visible
-ASCII -> false; (R3) the loop-free tail computing the answer from the three
+receives Some(weight), other codings touch no slot (the slots are three locals of a
+`for` loop, captures of a try_for_each closure, or the components of a try_fold
+accumulator); the coding compared can keep neither leading nor trailing optional
+whitespace and the weight is trimmed on both sides (computed structurally from the
+trim / sub-slice operations on the way from the element); header absent or not
+visible ASCII -> false; (R3) the loop-free tail computing the answer from the three
 Option<u16> slots, evaluated on all 125 order types of (gzip, identity, *) over
 {None, 0, 1, 500, 1000}, equals RFC 7231 5.3.4 (gzip: own, else *, else
 unacceptable; identity: own, else *, else least-preferred acceptable; true iff
